@@ -2,7 +2,7 @@ import Lemmas.SafeFile
 /-! # C14 — safe file replacement is all-or-nothing at every crash or fault point
 
 Property theorems only (helper lemmas: `Lemmas/SafeFile.lean`; executable model: `Model/SafeFile.lean`).
-`writeFile tmp dst N mode pieces fault : Res × List Act` is the model of `safe.WriteFileWithMode`: the result code and
+`writeFile tmp dst N mode pieces cb fault : Res × List Act` is the model of `safe.WriteFileWithMode`: the result code and
 the system calls issued in the destination directory, for a callback that hands `pieces` to a `bufio.Writer` of size
 `N`, under an injected `fault`.  `run umask fs acts` is the directory after the actions; `acts.take k` is what has
 happened when the process is killed on entry to system call number `k`.  The same definitions are executed by the
@@ -18,9 +18,10 @@ open Safe
     destination holds its previous state (content and mode, or absence) or the complete new content with the
     requested mode less the umask — never a prefix, a mixture or an empty file -/
 theorem dest_old_or_new_at_every_prefix (u : Nat) (fs : FS) (tmp dst : Path) (hne : tmp ≠ dst) (N mode : Nat)
-    (pieces : List Bytes) (fault : Fault) (k : Nat) :
-    run u fs ((writeFile tmp dst N mode pieces fault).2.take k) dst = fs dst ∨
-    run u fs ((writeFile tmp dst N mode pieces fault).2.take k) dst = some (newFile mode u pieces) := by
+    (pieces : List Bytes) (cb : CbMode) (fault : Fault) (k : Nat) :
+    run u fs ((writeFile tmp dst N mode pieces cb fault).2.take k) dst = fs dst ∨
+    run u fs ((writeFile tmp dst N mode pieces cb fault).2.take k) dst = some (newFile mode u pieces) := by
+  simp only [writeFile_closed] at *
   obtain ⟨ws, tl, hacts, hws, htl, _, hcommit⟩ := writeFile_shape tmp dst N mode pieces fault
   rw [hacts]
   have := shape_atomic u fs tmp dst hne mode ws tl (chunks N pieces) k hws htl hcommit
@@ -30,12 +31,13 @@ theorem dest_old_or_new_at_every_prefix (u : Nat) (fs : FS) (tmp dst : Path) (hn
 /-- **rename comes after all bytes**: whenever the action sequence contains a rename, it is `rename tmp dst`, the
     temporary file holds the complete new content (with the final mode) at that moment, and the call just before
     it is the successful `close` of the temporary file -/
-theorem rename_after_all_bytes (u : Nat) (fs : FS) (tmp dst : Path) (N mode : Nat) (pieces : List Bytes)
+theorem rename_after_all_bytes (u : Nat) (fs : FS) (tmp dst : Path) (N mode : Nat) (pieces : List Bytes) (cb : CbMode)
     (fault : Fault) (i : Nat) (s d : Path)
-    (h : (writeFile tmp dst N mode pieces fault).2[i]? = some (.rename s d)) :
+    (h : (writeFile tmp dst N mode pieces cb fault).2[i]? = some (.rename s d)) :
     s = tmp ∧ d = dst ∧
-    run u fs ((writeFile tmp dst N mode pieces fault).2.take i) tmp = some (newFile mode u pieces) ∧
-    ∃ j, i = j + 1 ∧ (writeFile tmp dst N mode pieces fault).2[j]? = some (.close tmp) := by
+    run u fs ((writeFile tmp dst N mode pieces cb fault).2.take i) tmp = some (newFile mode u pieces) ∧
+    ∃ j, i = j + 1 ∧ (writeFile tmp dst N mode pieces cb fault).2[j]? = some (.close tmp) := by
+  simp only [writeFile_closed] at *
   obtain ⟨ws, tl, hacts, hws, htl, _, hcommit⟩ := writeFile_shape tmp dst N mode pieces fault
   rw [hacts] at h ⊢
   -- a rename can only sit in the tail
@@ -86,16 +88,18 @@ theorem rename_after_all_bytes (u : Nat) (fs : FS) (tmp dst : Path) (N mode : Na
 
 /-- **the error is returned**: a fault that fires makes the call return an error (the callback's own error, or the
     failing system call's), and without a firing fault the call returns nil -/
-theorem error_returned_iff (tmp dst : Path) (N mode : Nat) (pieces : List Bytes) (fault : Fault) :
-    (writeFile tmp dst N mode pieces fault).1 ≠ .ok ↔ fault.fires N pieces := by
+theorem error_returned_iff (tmp dst : Path) (N mode : Nat) (pieces : List Bytes) (cb : CbMode) (fault : Fault) :
+    (writeFile tmp dst N mode pieces cb fault).1 ≠ .ok ↔ fault.fires N pieces := by
+  simp only [writeFile_closed] at *
   rw [Ne, writeFile_ok_iff]
   exact Classical.not_not
 
 /-- **failure leaves the destination untouched**: if the callback, a write (inside the callback or in the flush),
     the close or the rename fails, the destination is exactly what it was -/
 theorem failure_leaves_dst (u : Nat) (fs : FS) (tmp dst : Path) (hne : tmp ≠ dst) (N mode : Nat)
-    (pieces : List Bytes) (fault : Fault) (hf : (writeFile tmp dst N mode pieces fault).1 ≠ .ok) :
-    run u fs (writeFile tmp dst N mode pieces fault).2 dst = fs dst := by
+    (pieces : List Bytes) (cb : CbMode) (fault : Fault) (hf : (writeFile tmp dst N mode pieces cb fault).1 ≠ .ok) :
+    run u fs (writeFile tmp dst N mode pieces cb fault).2 dst = fs dst := by
+  simp only [writeFile_closed] at *
   obtain ⟨ws, tl, hacts, hws, htl, hok, _⟩ := writeFile_shape tmp dst N mode pieces fault
   have hd : dst ≠ tmp := fun e => hne e.symm
   have hnc : tl ≠ [.close tmp, .rename tmp dst] := fun e => hf (hok.mpr e)
@@ -114,8 +118,9 @@ theorem failure_leaves_dst (u : Nat) (fs : FS) (tmp dst : Path) (hne : tmp ≠ d
 
 /-- **failure removes the temporary file**: after any failing call no temporary file remains -/
 theorem failure_removes_tmp (u : Nat) (fs : FS) (tmp dst : Path) (N mode : Nat)
-    (pieces : List Bytes) (fault : Fault) (hf : (writeFile tmp dst N mode pieces fault).1 ≠ .ok) :
-    run u fs (writeFile tmp dst N mode pieces fault).2 tmp = none := by
+    (pieces : List Bytes) (cb : CbMode) (fault : Fault) (hf : (writeFile tmp dst N mode pieces cb fault).1 ≠ .ok) :
+    run u fs (writeFile tmp dst N mode pieces cb fault).2 tmp = none := by
+  simp only [writeFile_closed] at *
   obtain ⟨ws, tl, hacts, _, htl, hok, _⟩ := writeFile_shape tmp dst N mode pieces fault
   have hnc : tl ≠ [.close tmp, .rename tmp dst] := fun e => hf (hok.mpr e)
   rw [hacts, run_append]
@@ -125,17 +130,62 @@ theorem failure_removes_tmp (u : Nat) (fs : FS) (tmp dst : Path) (N mode : Nat)
   | closeFail => simp [run, applyAct, set_same]
   | renameFail => simp [run, applyAct, set_same]
 
+/-- **the callback's treatment of write errors is irrelevant**: result and system calls are the same whether the
+    callback returns the error of `w.Write`, swallows it and stops, or swallows it and keeps writing — bufio's sticky
+    error stops all further writes and the final `Flush` reports it even when nothing is buffered -/
+theorem callback_mode_irrelevant (tmp dst : Path) (N mode : Nat) (pieces : List Bytes) (cb cb' : CbMode) (fault : Fault) :
+    writeFile tmp dst N mode pieces cb fault = writeFile tmp dst N mode pieces cb' fault := by
+  rw [writeFile_closed, writeFile_closed]
+
+/-- **a failing `write(2)` at any position, whatever the callback returns**: if write number `k` of the run fails
+    (`k` below the number of writes of the fault-free run — inside the callback, buffered or by-passing the buffer,
+    or inside the final `Flush`), the call returns the error, the destination is untouched at the end (and by
+    `dest_old_or_new_at_every_prefix` at every kill point) and no temporary file remains -/
+theorem write_failure_whatever_callback (u : Nat) (fs : FS) (tmp dst : Path) (hne : tmp ≠ dst) (N mode : Nat)
+    (pieces : List Bytes) (cb : CbMode) (k : Nat) (hk : k < (chunks N pieces).length) :
+    (writeFile tmp dst N mode pieces cb (.write k)).1 = .errno ∧
+    run u fs (writeFile tmp dst N mode pieces cb (.write k)).2 dst = fs dst ∧
+    run u fs (writeFile tmp dst N mode pieces cb (.write k)).2 tmp = none := by
+  have hres : (writeFile tmp dst N mode pieces cb (.write k)).1 = .errno := by
+    rw [writeFile_closed]
+    unfold writeFileClosed
+    have hcreate : File.create tmp dst mode = (openFile tmp dst, [.createExcl tmp mode]) := rfl
+    simp only [hcreate, Fault.writeAt, attempted, writeAll_lt tmp dst _ k hk]
+    simp
+  have hne' : (writeFile tmp dst N mode pieces cb (.write k)).1 ≠ .ok := by rw [hres]; simp
+  exact ⟨hres, failure_leaves_dst u fs tmp dst hne N mode pieces cb _ hne',
+    failure_removes_tmp u fs tmp dst N mode pieces cb _ hne'⟩
+
+/-- **no failed write goes unnoticed**: if any `write(2)` of the run returned an error — under any fault, any
+    callback behaviour — the call does not return nil (so, by the two theorems around this one, the destination is
+    untouched and the temporary file removed) -/
+theorem failed_write_returns_error (tmp dst : Path) (N mode : Nat) (pieces : List Bytes) (cb : CbMode) (fault : Fault)
+    (n : Nat) (h : Act.writeFail tmp n ∈ (writeFile tmp dst N mode pieces cb fault).2) :
+    (writeFile tmp dst N mode pieces cb fault).1 ≠ .ok := by
+  simp only [writeFile_closed] at *
+  obtain ⟨ws, tl, hacts, _, _, hiff, hcommit⟩ := writeFile_shape tmp dst N mode pieces fault
+  intro hok
+  have htl := hiff.mp hok
+  have hws := hcommit htl
+  rw [hacts, htl, hws] at h
+  simp at h
+
 /-- **a failing call leaves the whole directory as it was** (the temporary name was free, as `O_EXCL` demands):
     same listing, same contents, same modes -/
 theorem failure_clean (u : Nat) (fs : FS) (tmp dst : Path) (hne : tmp ≠ dst) (N mode : Nat)
-    (pieces : List Bytes) (fault : Fault) (hfree : fs tmp = none)
-    (hf : (writeFile tmp dst N mode pieces fault).1 ≠ .ok) :
-    run u fs (writeFile tmp dst N mode pieces fault).2 = fs := by
+    (pieces : List Bytes) (cb : CbMode) (fault : Fault) (hfree : fs tmp = none)
+    (hf : (writeFile tmp dst N mode pieces cb fault).1 ≠ .ok) :
+    run u fs (writeFile tmp dst N mode pieces cb fault).2 = fs := by
+  simp only [writeFile_closed] at *
   funext p
   by_cases hp : p = tmp
-  · subst hp; rw [failure_removes_tmp u fs p dst N mode pieces fault hf, hfree]
+  · subst hp; have := failure_removes_tmp u fs p dst N mode pieces cb fault (by rw [writeFile_closed]; exact hf)
+    rw [writeFile_closed] at this
+    rw [this, hfree]
   · by_cases hq : p = dst
-    · subst hq; exact failure_leaves_dst u fs tmp p hne N mode pieces fault hf
+    · subst hq; have := failure_leaves_dst u fs tmp p hne N mode pieces cb fault (by rw [writeFile_closed]; exact hf)
+      rw [writeFile_closed] at this
+      exact this
     · obtain ⟨ws, tl, hacts, hws, htl, _, _⟩ := writeFile_shape tmp dst N mode pieces fault
       rw [hacts]
       apply run_untouched
@@ -153,10 +203,11 @@ theorem failure_clean (u : Nat) (fs : FS) (tmp dst : Path) (hne : tmp ≠ dst) (
 /-- **successful commit**: when the call returns nil the destination holds exactly the bytes written, with the
     requested mode less the umask; the temporary file is gone; nothing else in the directory changed -/
 theorem commit_result (u : Nat) (fs : FS) (tmp dst : Path) (hne : tmp ≠ dst) (N mode : Nat)
-    (pieces : List Bytes) (fault : Fault) (hok : (writeFile tmp dst N mode pieces fault).1 = .ok) :
-    run u fs (writeFile tmp dst N mode pieces fault).2 dst = some ⟨pieces.flatten, lessUmask mode u⟩ ∧
-    run u fs (writeFile tmp dst N mode pieces fault).2 tmp = none ∧
-    ∀ p, p ≠ tmp → p ≠ dst → run u fs (writeFile tmp dst N mode pieces fault).2 p = fs p := by
+    (pieces : List Bytes) (cb : CbMode) (fault : Fault) (hok : (writeFile tmp dst N mode pieces cb fault).1 = .ok) :
+    run u fs (writeFile tmp dst N mode pieces cb fault).2 dst = some ⟨pieces.flatten, lessUmask mode u⟩ ∧
+    run u fs (writeFile tmp dst N mode pieces cb fault).2 tmp = none ∧
+    ∀ p, p ≠ tmp → p ≠ dst → run u fs (writeFile tmp dst N mode pieces cb fault).2 p = fs p := by
+  simp only [writeFile_closed] at *
   obtain ⟨ws, tl, hacts, hws, _, hiff, hcommit⟩ := writeFile_shape tmp dst N mode pieces fault
   have htl := hiff.mp hok
   have hws' := hcommit htl
@@ -308,9 +359,9 @@ theorem chunk_ge (N : Nat) (pieces : List Bytes) :
 
 /-! non-vacuity: the hypotheses are satisfiable, and both outcomes of `dest_old_or_new_at_every_prefix` occur -/
 example : (1 : Path) ≠ 0 := by decide
-example : (writeFile 1 0 4 0o644 [[1, 2, 3], [4, 5, 6]] .none).1 = .ok := by decide
-example : (writeFile 1 0 4 0o644 [[1, 2, 3], [4, 5, 6]] (.write 1)).1 ≠ .ok := by decide
-example : (writeFile 1 0 4 0o644 [[1, 2, 3], [4, 5, 6]] .none).2 =
+example : (writeFile 1 0 4 0o644 [[1, 2, 3], [4, 5, 6]] .propagate .none).1 = .ok := by decide
+example : (writeFile 1 0 4 0o644 [[1, 2, 3], [4, 5, 6]] .swallowStop (.write 1)).1 ≠ .ok := by decide
+example : (writeFile 1 0 4 0o644 [[1, 2, 3], [4, 5, 6]] .propagate .none).2 =
     [.createExcl 1 0o644, .write 1 [1, 2, 3, 4], .write 1 [5, 6], .close 1, .rename 1 0] := by decide
 example : (Fault.write 1).fires 4 [[1, 2, 3], [4, 5, 6]] := by
   show 1 < (chunks 4 [[1, 2, 3], [4, 5, 6]]).length
